@@ -626,5 +626,34 @@ Proof.
     destruct (o_sd_done o) as [|k]; [lia|]. cbn in Hesc.
     destruct (get th (o_api o)) as [[]|]; cbn in Hesc; try discriminate; cbn; now rewrite N.eqb_refl.
 Qed.
+
+(* ---- status writes -------------------------------------------------------------------------------------------- *)
+Lemma state_effect s th i s0 s' : step_state s th i s0 = Some s' ->
+  exists x, get i (insts s) = Some x /\
+    (forall j, j <> i -> get j (insts s') = get j (insts s)) /\
+    (forall n, n <> nm x -> get n (viss s') = get n (viss s)) /\
+    (forall v', get (nm x) (viss s') = Some v' -> st v' = s0) /\
+    (is_running_status s0 = true ->
+       (exists c, pc x = IInEnd s0 c false) \/
+       (s0 = SRunning /\ pc x = IPreLaunch /\ get th (thinst s) = Some i /\
+        exists x', get i (insts s') = Some x' /\ pc x' = IStateSet /\ l_done x' = l_done x /\ nm x' = nm x)).
+Proof.
+  intros H. unfold step_state in H. destruct (get i (insts s)) as [x|] eqn:Hx; [|discriminate]. exists x. split; [reflexivity|].
+  break_step H; subst s'; split_andb;
+  repeat match goal with E : status_eqb _ _ = true |- _ => apply status_eqb_eq in E; subst end.
+  all: unfold set_pc, end_finish, write_status; split;
+       [intros j Hj; autorewrite with sup; repeat match goal with |- context[if ?b then _ else _] => is_var b; destruct b end;
+        autorewrite with sup; try match goal with |- context[N.eqb ?a ?b] => rewrite (proj2 (N.eqb_neq a b)) by congruence end; reflexivity|].
+  all: split; [intros n Hn; autorewrite with sup; repeat match goal with |- context[if ?b then _ else _] => is_var b; destruct b end;
+               autorewrite with sup; rewrite (proj2 (N.eqb_neq (nm x) n)) by congruence; reflexivity|].
+  all: split; [intros v' Hv'; repeat match type of Hv' with context[if ?b then _ else _] => is_var b; destruct b end;
+               autorewrite with sup in Hv'; rewrite N.eqb_refl in Hv'; destruct (get (nm x) (viss s)); cbn in Hv';
+               try discriminate Hv'; injection Hv' as <-; try reflexivity|].
+  all: try (destruct s1; reflexivity).
+  all: cbn [is_running_status]; try (intros; discriminate).
+  all: try (intros _; left; eauto; fail).
+  all: intros _; right; repeat split; try reflexivity; try (now apply opt_eqb_N_eq).
+  all: eexists; autorewrite with sup; rewrite N.eqb_refl, Hx; cbn; split; [reflexivity|]; cbn; auto.
+Qed.
 (*STOP*)
 End RelC03.
